@@ -5,6 +5,7 @@ import (
 	"errors"
 	"fmt"
 	"reflect"
+	"sort"
 	"strings"
 
 	"github.com/graphql-go/graphql/gqlerrors"
@@ -182,8 +183,21 @@ func dethunkMapWithBreadthFirstTraversal(finalResults map[string]interface{}) {
 	}
 }
 
+// sortedResultKeys returns the keys of a result map in sorted order. Thunks
+// are forced while walking result maps; forcing them in key order keeps the
+// order of side effects and of recorded field errors the same on every run.
+func sortedResultKeys(m map[string]interface{}) []string {
+	keys := make([]string, 0, len(m))
+	for k := range m {
+		keys = append(keys, k)
+	}
+	sort.Strings(keys)
+	return keys
+}
+
 func dethunkMapBreadthFirst(m map[string]interface{}, dethunkQueue *dethunkQueue) {
-	for k, v := range m {
+	for _, k := range sortedResultKeys(m) {
+		v := m[k]
 		if f, ok := v.(func() interface{}); ok {
 			m[k] = f()
 		}
@@ -215,7 +229,8 @@ func dethunkListBreadthFirst(list []interface{}, dethunkQueue *dethunkQueue) {
 // to conform to the graphql-js reference implementation, which requires serial (depth-first)
 // implementations for mutation selects.
 func dethunkMapDepthFirst(m map[string]interface{}) {
-	for k, v := range m {
+	for _, k := range sortedResultKeys(m) {
+		v := m[k]
 		if f, ok := v.(func() interface{}); ok {
 			m[k] = f()
 		}
